@@ -1,6 +1,7 @@
 '''C01, the content of the update: correspondence of valjean.cosette.env.Env.apply
 (the merge WorkerThread.publish performs) with the structural model
-coq/Sched/EnvApply.v (`merge`), on random nested dictionaries, plus an
+coq/Sched/EnvApply.v (`merge`), on random nested dictionaries (content compared
+exactly, key order inside a dictionary ignored: not part of C01), plus an
 oracle on the real result that does not use the model (path statements of
 Props/C01.v: the update is readable, what leaves the update is unchanged, the
 call raises iff a non-empty dictionary of the update meets a leaf).
@@ -20,8 +21,11 @@ From VV Require Import Lib.Base Sched.EnvApply.
 Import ListNotations.
 Notation L := Leaf.
 Notation D := Dict.
+(* content compared exactly, up to the order of the keys inside a dictionary (norm sorts every
+   dictionary by key; Props/C01.v: C01_norm_get_path); raising compared as is *)
 Definition check_case (x : val * list val * option val) : bool :=
-  let '(old, us, want) := x in oval_eqb (apply_all us old) want.
+  let '(old, us, want) := x in
+  oval_eqb (option_map norm (apply_all us old)) (option_map norm want).
 '''
 
 KEYS = ['a', 'b', 'c', 'd', 'e']
@@ -248,8 +252,8 @@ def run(ctx):
                          {'envapply': case})
     ctx.notes.append(f'Env.apply: {ncases} (old, update) pairs of nested dictionaries run on the real '
                      'Env.apply (direct, two-step histories, through Env.atomically; update nodes as '
-                     'dict/OrderedDict/UserDict) and compared with merge of coq/Sched/EnvApply.v incl. '
-                     'key order and raising; path oracle (readable / frame / raise condition / update '
+                     'dict/OrderedDict/UserDict) and compared with merge of coq/Sched/EnvApply.v (content and '
+                     'raising; key order inside a dictionary ignored via norm); path oracle (readable / frame / raise condition / update '
                      'untouched) on the real result')
 
 
